@@ -2,7 +2,7 @@
  * drv_slist.c — conformance driver for src/slist.c.
  * scope args: <vals e.g. 1212> <nlists> [probes 0|1]
  * ops: 0 pushf(l,e) 1 pushb(l,e) 2 popf(l) 4 insert(l,pe,e) 5 erasea(l,pe)
- *      6 reverse(l) 7 sort(l) 8 concat(d,src) 9 swap(a,b) 11 foreach(l,stop)
+ *      6 reverse(l) 7 sort(l) 8 concat(d,src) 9 swap(a,b) 11 foreach(l,stop,eraseVisited)
  *      12 clear(l) 13 peek(l)
  * Pointers are logged as node ids 1..N, 0 for NULL, -j for the head link of
  * list j (what t points at when the list is empty); anything else sets "bad".
@@ -94,12 +94,18 @@ static void rescan(void)
         }
     }
 }
-static int cb_count, cb_stop;
+static int cb_count, cb_stop, cb_erase, cb_list;
 static int visit_cb(void *e, void *p)
 {
+    int id = id_of_el(e);
     e_check_priv(p);
     cb_count++;
-    ev_add("%d", id_of_el(e));
+    ev_add("%d", id);
+    if (cb_erase && id > 0) {
+        /* take the visited element out (it is the front: its predecessors went the same way) and reuse its memory */
+        if (cstl_slist_pop_front(&L[cb_list]) != e) bad = 1;
+        memset(&pool[id].n, 0xA5, sizeof pool[id].n); memset(&pool[id].n2, 0xA5, sizeof pool[id].n2);
+    }
     return (cb_stop && cb_count == cb_stop) ? e_stopval(cb_stop) : 0;
 }
 static void clear_cb(void *e, void *p)
@@ -124,7 +130,7 @@ static void drv_apply(const vop_t *op, jb_t *res)
     case 9: cstl_slist_swap(&L[a[0]], &L[a[1]]); jb_puts(res, ",\"ret\":0"); break;
     case 11: {
         int r;
-        cb_count = 0; cb_stop = a[1];
+        cb_count = 0; cb_stop = a[1]; cb_erase = a[2]; cb_list = a[0];
         r = cstl_slist_foreach(&L[a[0]], visit_cb, E_PRIV);
         jb_printf(res, ",\"ret\":%d", r);
         break;
@@ -150,7 +156,7 @@ static void drv_opjson(const vop_t *op, jb_t *b)
     case 7: jb_printf(b, "\"op\":\"sort\",\"l\":%d", a[0]); break;
     case 8: jb_printf(b, "\"op\":\"concat\",\"d\":%d,\"src\":%d", a[0], a[1]); break;
     case 9: jb_printf(b, "\"op\":\"swap\",\"a\":%d,\"b\":%d", a[0], a[1]); break;
-    case 11: jb_printf(b, "\"op\":\"foreach\",\"l\":%d,\"stop\":%d", a[0], a[1]); break;
+    case 11: jb_printf(b, "\"op\":\"foreach\",\"l\":%d,\"stop\":%d,\"er\":%s", a[0], a[1], a[2] ? "true" : "false"); break;
     case 12: jb_printf(b, "\"op\":\"clear\",\"l\":%d", a[0]); break;
     case 13: jb_printf(b, "\"op\":\"peek\",\"l\":%d", a[0]); break;
     default: jb_printf(b, "\"op\":\"?%d\"", op->k);
@@ -191,7 +197,7 @@ static int drv_enum(vop_t *ops, int max)
         for (m = 1; m <= NL; m++) if (m != l && L[m].off == L[l].off) ADD(8, l, m, 0, 0);   /* concat: like-configured lists only */
         for (m = l; m <= NL; m++) ADD(9, l, m, 0, 0);      /* m == l: a list swapped with itself */
         if (PROBES) {
-            for (st = 0; st <= slen[l]; st++) ADD(11, l, st, 0, 0);
+            for (st = 0; st <= slen[l]; st++) { ADD(11, l, st, 0, 0); ADD(11, l, st, 1, 0); }
             ADD(13, l, 0, 0, 0);
         }
     }
@@ -214,7 +220,7 @@ static int drv_random(unsigned long (*rnd)(void), vop_t *op)
     else if (r < 76) { op->k = 7; op->a[0] = l; }
     else if (r < 82 && m != l && L[m].off == L[l].off) { op->k = 8; op->a[0] = l; op->a[1] = m; }
     else if (r < 87 ) { op->k = 9; op->a[0] = l < m ? l : m; op->a[1] = l < m ? m : l; }
-    else if (r < 93) { op->k = 11; op->a[0] = l; op->a[1] = (rnd() & 1) ? 0 : (int)(rnd() % (unsigned)(slen[l] + 1)); }
+    else if (r < 93) { op->k = 11; op->a[0] = l; op->a[1] = (rnd() & 1) ? 0 : (int)(rnd() % (unsigned)(slen[l] + 1)); op->a[2] = rnd() % 3 == 0; }
     else if (r < 95) { op->k = 12; op->a[0] = l; }
     else { op->k = 13; op->a[0] = l; }
     return 1;
